@@ -159,7 +159,17 @@ impl Soundness {
                 }
             }
             let what = format!("`{program}` called through the host API with ({})", combo.join(", "));
-            let run = exec::call_function(&f, args, self.monitor());
+            let kept = args.clone();
+            let mut run = exec::call_function(&f, args, self.monitor());
+            if self.monitor() {
+                // the cells handed in stay reachable for the caller: whatever the call did and
+                // however it ended, each must still hold a value of its declared type
+                for a in &kept {
+                    if let Some(why) = crate::ty::cells_ok(a, 0) {
+                        run.log.violations.push(exec::TypeViolation { sig: "C01:cell-content".into(), msg: format!("argument after the call: {why}") });
+                    }
+                }
+            }
             if matches!(run.outcome, Outcome::Rejected(_)) {
                 // the host API refused values the catalogue lists for the parameter type
                 stats.label("matrix: host call rejected");
